@@ -69,6 +69,10 @@ pub struct Case {
     /// row, also for one with a missing value in it.
     #[serde(default)]
     pub nonfinite_cells: Vec<(usize, usize, u8)>,
+    /// set when one feature column was ordered by the adversarial comparator party (core::adversary): how the
+    /// construction against the real index sort ended, and how many comparisons the sort asked for
+    #[serde(default)]
+    pub sort_adversary: Option<(String, u64)>,
 }
 
 /// the query rows with their non-finite cells filled in
@@ -596,6 +600,14 @@ impl C06 {
         rep.count("steps.trees_fitted", 2 * pr.n_trees as u64);
         rep.count("fault.seeded-draw-boundary-value", a.draw_faults + b.draw_faults);
         rep.count("fault.seeded-draw-plan-installed", case.std_fault.is_some() as u64);
+        if let Some((outcome, ncmp)) = &case.sort_adversary {
+            let n = case.x.len() as f64;
+            rep.count(&format!("fault.adversarial-sort-order.{}", outcome), 1);
+            rep.count("steps.adversary-comparisons", *ncmp);
+            // how hard the real sort was hit: comparisons relative to n*log2(n)
+            rep.max("sort_adversary_comparisons_over_nlog2n", *ncmp as f64 / (n * n.log2()).max(1.0));
+            rep.count("probe.sort-adversary-quadratic", (*ncmp as f64 > n * n / 8.0) as u64);
+        }
 
         if let Some(e) = &a.err {
             rep.fail("fit-failed", "forest-fit", format!("{}: {}", ctx, e));
@@ -901,7 +913,11 @@ fn gen_case(batch: &str, _index: u64, seed: u64) -> Case {
     let mut pr = Xo::fork(seed, "parameters");
     let mut sc = Xo::fork(seed, "schedule");
     let task = if batch.contains("reg") { "reg" } else if batch.contains("clf") { "clf" } else if pr.chance(0.5) { "clf" } else { "reg" };
-    let n = if pr.chance(0.5) { pr.usize_in(4, 30) } else { pr.usize_in(4, 120) };
+    let mut n = if pr.chance(0.5) { pr.usize_in(4, 30) } else { pr.usize_in(4, 120) };
+    if batch == "twins-sort-adversary" {
+        // the party needs room: mostly the upper half of the domain
+        n = if pr.chance(0.75) { pr.usize_in(64, 120) } else { pr.usize_in(8, 63) };
+    }
     let p = pr.usize_in(1, 6);
     let lattice = r.chance(0.35);
     // lattices: 0..4, centred (-2..2), sign-coded (-1 / +1) and half-steps around zero: thresholds between
@@ -953,6 +969,45 @@ fn gen_case(batch: &str, _index: u64, seed: u64) -> Case {
             let steps = r.below(levels);
             row[col] = f64::from_bits((base.to_bits() as i64 + if base > 0.0 { steps as i64 } else { -(steps as i64) }) as u64);
         }
+    }
+    // sometimes one feature column comes in a structured row order (ascending, descending, organ pipe, saw-tooth,
+    // interleaved halves): the orders a presort meets when data were exported from a sorted table
+    if r.chance(0.1) {
+        let col = r.below(p as u64) as usize;
+        let mut vals: Vec<f64> = x.iter().map(|row| row[col]).collect();
+        vals.sort_by(|a, b| a.partial_cmp(b).unwrap());
+        let order: Vec<usize> = match r.below(5) {
+            0 => (0..n).collect(),
+            1 => (0..n).rev().collect(),
+            2 => (0..n).map(|i| if i < n / 2 { 2 * i } else { (2 * (n - 1 - i) + 1).min(n - 1) }).collect(),
+            3 => { let t = r.usize_in(2, 9); (0..n).map(|i| (i % t) * (n / t).max(1) + i / t).map(|v| v.min(n - 1)).collect() }
+            _ => (0..n).map(|i| if i % 2 == 0 { i / 2 } else { (n + i) / 2 }).map(|v| v.min(n - 1)).collect(),
+        };
+        for (i, row) in x.iter_mut().enumerate() {
+            row[col] = vals[order[i]];
+        }
+    }
+    // adversarial comparator party: one column ordered as the worst case of the tree's own index sort, found by
+    // leading the real sort with lazily decided comparisons; any increasing map of the ranks keeps the order
+    let mut sort_adversary = None;
+    if batch == "twins-sort-adversary" {
+        let k = crate::core::adversary::killer_for_real_sort(n);
+        if k.outcome != "abandoned" {
+            let col = r.below(p as u64) as usize;
+            let shape = r.below(5);
+            let (a, b) = (r.range(-50.0, 50.0), r.range(0.01, 20.0));
+            for (i, row) in x.iter_mut().enumerate() {
+                let v = k.values[i] as f64;
+                row[col] = match shape {
+                    0 => v,
+                    1 => a + b * v,
+                    2 => (v / 8.0).exp2(),
+                    3 => -((n as f64 - v) / 4.0).exp2(),
+                    _ => v - (n / 2) as f64,
+                };
+            }
+        }
+        sort_adversary = Some((k.outcome.to_string(), k.comparisons));
     }
     let y: Vec<f64>;
     if task == "clf" {
@@ -1092,6 +1147,7 @@ fn gen_case(batch: &str, _index: u64, seed: u64) -> Case {
     let (ambient_a, ambient_b, kind) = match batch {
         "twins-seeded" | "twins-clf" | "twins-reg" | "twins-f32" => (Some(ta), Some(tb), "ambient seeded / seeded-other"),
         "twins-draw-faults" => (Some(ta), Some(tb), "ambient seeded / seeded-other, boundary values in the forest's own generator"),
+        "twins-sort-adversary" => (Some(ta), Some(tb), "ambient seeded / seeded-other, one feature column ordered by the adversarial comparator party"),
         "twins-extreme" => {
             let mut e = tb;
             e.extreme_pm = *pr.pick(&[200u32, 1000]);
@@ -1121,7 +1177,7 @@ fn gen_case(batch: &str, _index: u64, seed: u64) -> Case {
         }
     }
     let std_fault = if batch == "twins-draw-faults" { Some((sc.u64(), *pr.pick(&[300u32, 3000, 30_000, 150_000, 350_000]))) } else { None };
-    Case { task: task.into(), x, y, params, queries, ambient_a, ambient_b, pollute, ops, refit_same_thread, kind: kind.into(), ctor, f32m, std_fault, nonfinite_cells }
+    Case { task: task.into(), x, y, params, queries, ambient_a, ambient_b, pollute, ops, refit_same_thread, kind: kind.into(), ctor, f32m, std_fault, nonfinite_cells, sort_adversary }
 }
 
 impl Property for C06 {
@@ -1137,6 +1193,7 @@ impl Property for C06 {
             Batch { name: "twins-f32", count: if q { 5_000 } else { 250_000 }, simulated: true, exhaustive: false, note: "classifier and regressor twins in single precision" },
             Batch { name: "twins-extreme", count: if q { 5_000 } else { 250_000 }, simulated: true, exhaustive: false, note: "twin B's ambient RNG serves extreme words" },
             Batch { name: "twins-draw-faults", count: if q { 6_000 } else { 300_000 }, simulated: true, exhaustive: false, note: "the forest's own seeded generator serves boundary values (0, 1, MAX, MAX-1, 2^k-1) at a seeded subset of its draws, identically for every twin: bootstrap samples and sub-seeds a ChaCha stream reaches with negligible probability" },
+            Batch { name: "twins-sort-adversary", count: if q { 1_500 } else { 60_000 }, simulated: true, exhaustive: false, note: "adversarial comparator party: the tree fits' own index sort (real code, driven through its generic element type) is led through its worst case by lazily decided comparisons (McIlroy's adversary); the resulting order becomes a feature column of the twins" },
             Batch { name: "twins-none", count: if q { 5_000 } else { 250_000 }, simulated: true, exhaustive: false, note: "no simulator source installed for one or both twins (real OS-seeded ThreadRng)" },
         ]
     }
